@@ -22,10 +22,14 @@ func verifAssume(bool) {}
 // applied to the range-trimmed rows, never before the trim (typestate carried from trimResultsToRange to
 // trimResultsToLimit through Reader.Read).
 //@ ghost func rangeTrimmed(b int, n int) bool
+// limitTrimmed(b, n): the buffer at address b of n bytes is the output of the row-limit trim
+//@ ghost func limitTrimmed(b int, n int) bool
 
 //@ func (*Reader).Read
 //@ props C12 C11
 //@ loop 0 invariant true
+// the rows of a variable-length bucket are handed on only after the range trim and the limit trim
+//@ loop 0 step #variableIsTrimmed: rt == utilsio.VARIABLE ==> limitTrimmed(base(buffer), len(buffer))
 //@ assumepre executor.trimResultsToRange.rowlen "row length of a variable-length bucket comes from the catalog (GetRowLen), not established here"
 //@ assumepre executor.trimResultsToRange.wholeRows "Reader.read returns whole rows; file I/O is outside the subset"
 //@ assumepre executor.trimResultsToLimit.rowlen "row length from the catalog"
@@ -34,6 +38,7 @@ func verifAssume(bool) {}
 //@ func trimResultsToLimit
 //@ props C12
 //@ requires #afterRangeTrim: rangeTrimmed(base(src), len(src))
+//@ marks #limitTrimmed: limitTrimmed(base(result), len(result))
 //@ requires #rowlen: rowLen + 8 > 0 && rowLen < 2147483648
 //@ requires #limit: l.Number >= 0
 //@ ensures #noTrim: len(src)/(rowLen+8) <= l.Number ==> result == src
